@@ -25,6 +25,7 @@
     history (`accept_sound`).
 -/
 import FwdVerif.Model.C11
+import FwdVerif.Model.C11Group
 import FwdVerif.Lib.Wire
 import Std.Data.HashSet
 import Std.Data.HashMap
@@ -49,6 +50,10 @@ inductive Ev where
   | nolimit    -- configuration marker: shutdown timeout 0, the context `run` hands to Shutdown has no deadline;
                -- not an action: the execution starts from `initCfg true _`
   | signals (l : List Sig)  -- configuration marker: ShutdownSignals = l (`initCfg _ l`); none = the empty set
+  -- the host layer (`Model/C11Group.lean`): events of the group, no actions of the proxy's model
+  | groupCfg (members : Nat) (l : List Sig)  -- configuration marker: hosted in a runctx.Group with that many companions, NotifySignals = l
+  | memberRet (i : MemberId)                 -- companion i returned
+  | groupRet                                 -- RunContext returned
   deriving DecidableEq, Repr, Inhabited
 
 def Ev.action : Ev → Option Action
@@ -65,11 +70,38 @@ def Ev.action : Ev → Option Action
   | .known => none
   | .nolimit => none
   | .signals _ => none
+  | .groupCfg _ _ => none
+  | .memberRet _ => none
+  | .groupRet => none
 
-/-- markers are not actions -/
+/-- markers are not actions (of the proxy's model) -/
 def Ev.isMarker : Ev → Bool
-  | .known | .nolimit | .signals _ => true
+  | .known | .nolimit | .signals _ | .groupCfg _ _ | .memberRet _ | .groupRet => true
   | _ => false
+
+/-- markers that are no event of the host layer either -/
+def Ev.isCfgMarker : Ev → Bool
+  | .known | .nolimit | .signals _ | .groupCfg _ _ => true
+  | _ => false
+
+/-- how the history says the proxy is hosted: the group's companions and NotifySignals -/
+def groupOf (h : List Ev) : Option (Nat × List Sig) :=
+  h.findSome? fun e => match e with | .groupCfg m l => some (m, l) | _ => none
+
+/-- the history of the PROXY in a history of a hosted proxy: the first signal of the group's NotifySignals delivered
+    while the run context is not done IS its cancellation (`gstep (.signal n)`); everything else stays what it is -/
+def baseOf (h : List Ev) : List Ev :=
+  match groupOf h with
+  | none => h
+  | some (_, gs) =>
+    let rec go (done : Bool) : List Ev → List Ev
+      | [] => []
+      | e :: rest =>
+        match e with
+        | .cancel => e :: go true rest
+        | .sig n _ => if !done && gs.contains n then .cancel :: go true rest else e :: go done rest
+        | _ => e :: go done rest
+    go false h
 
 /-- the configured set of shutdown signals a history names -/
 def sigSet (h : List Ev) : List Sig :=
@@ -531,6 +563,70 @@ theorem accept_sound {h : List Ev} (ha : accept h = true) :
   simp only [Bool.and_eq_true, beq_iff_eq] at this
   exact this
 
+/-! ## the host layer -/
+
+/-- the initial state of the hosted system a history names -/
+def gstartOf (h : List Ev) : GState :=
+  match groupOf h with
+  | some (m, gs) => ginit (h.contains .nolimit) (sigSet h) gs m
+  | none => ginit (h.contains .nolimit) (sigSet h) [] 0
+
+/-- the visible part of an action of the hosted system -/
+def gvisible : GAction → Option Ev
+  | .base a => visible a
+  | .signal n => some (.sig n 0)
+  | .memberRet i => some (.memberRet i)
+  | .groupRet => some .groupRet
+
+/-- the events of a history that are events of the hosted system -/
+def gevents (h : List Ev) : List Ev := h.filter (!·.isCfgMarker)
+
+/-- lift an execution of the proxy (its visible part = `baseOf h`) to the hosted system along `h`: a delivered signal
+    is `signal`; the returns of the companions and of the group are placed just before the next visible action (after
+    the hidden steps that precede it), the rest at the end -/
+def liftGroup : List Ev → List Action → List GAction
+  | hs, [] => hs.filterMap fun e => match e with
+    | .memberRet i => some (.memberRet i)
+    | .groupRet => some .groupRet
+    | _ => none
+  | hs, a :: as =>
+    match visible a with
+    | none => .base a :: liftGroup hs as
+    | some _ =>
+      -- the group events that come first
+      let pre := hs.takeWhile fun e => match e with | .memberRet _ | .groupRet => true | _ => false
+      let rest := hs.dropWhile fun e => match e with | .memberRet _ | .groupRet => true | _ => false
+      let preA : List GAction := pre.filterMap fun e => match e with
+        | .memberRet i => some (.memberRet i)
+        | .groupRet => some .groupRet
+        | _ => none
+      match rest with
+      | .sig n _ :: rest' => preA ++ .signal n :: liftGroup rest' as
+      | _ :: rest' => preA ++ .base a :: liftGroup rest' as
+      | [] => preA ++ .base a :: liftGroup [] as
+
+/-- the lifted execution runs in the hosted system and its visible part is the history -/
+def checkGRun (h : List Ev) (as : List Action) : Bool :=
+  let gas := liftGroup (gevents h) as
+  (grun (gstartOf h) gas).isSome && (gas.filterMap gvisible == gevents h)
+
+/-- acceptance of a history of a hosted proxy -/
+def gaccept (h : List Ev) : Bool :=
+  let hb := baseOf h
+  let v := search hb.toArray
+  v.ok && checkRun hb v.actions.toList && checkGRun h v.actions.toList
+
+/-- an accepted history of a hosted proxy is a behaviour of the hosted system `Model/C11Group.lean` -/
+theorem gaccept_sound {h : List Ev} (ha : gaccept h = true) :
+    ∃ gas, (grun (gstartOf h) gas).isSome = true ∧ gas.filterMap gvisible = gevents h := by
+  unfold gaccept at ha
+  simp only [Bool.and_eq_true] at ha
+  refine ⟨liftGroup (gevents h) (search (baseOf h).toArray).actions.toList, ?_⟩
+  have := ha.2
+  unfold checkGRun at this
+  simp only [Bool.and_eq_true, beq_iff_eq] at this
+  exact this
+
 /-! ## the property clauses on a history -/
 
 structure Fail where
@@ -681,6 +777,20 @@ def clauses (h : Array Ev) : List Fail := Id.run do
     for j in [0:countEv h (isResp k)] do
       if ends.any (fun e => before (some e) (nth h (isAnswer k) j)) then
         out := out ++ [{ clause := "response-relayed-after-run-or-close-returned", conn := k }]
+  -- (11) the host layer: RunContext returns only after EVERY member has returned — the proxy's Run and every companion —,
+  --      and nothing is served any more once it has returned (the process exits)
+  match groupOf h.toList with
+  | some (m, _) =>
+    for gr in (List.range h.size).filter (fun i => h[i]! == Ev.groupRet) do
+      let late : Bool := !(before (posOf h (· == Ev.runRet)) (some gr)) ||
+        (List.range m).any fun i => !(before (posOf h (· == Ev.memberRet i)) (some gr))
+      if late then
+        out := out ++ [{ clause := "group-returned-before-every-member-had-returned", conn := 0 }]
+      for k in conns do
+        for j in [0:countEv h (isResp k)] do
+          if before (some gr) (nth h (isAnswer k) j) then
+            out := out ++ [{ clause := "response-relayed-after-the-group-returned", conn := k }]
+  | none => pure ()
   -- (6) every call of Shutdown returns the error of ITS context, and only after that context was done for that
   --     reason (deadline passed: DeadlineExceeded; cancelled: Canceled)
   for i in [0:h.size] do
@@ -737,6 +847,9 @@ def parseEv (s : String) : Option Ev :=
   | ["NL"] => some .nolimit
   | ["G", n] => do some (.sig (← n.toNat?) 0)
   | "SG" :: l => do some (.signals (← l.mapM String.toNat?))
+  | "GC" :: m :: l => do some (.groupCfg (← m.toNat?) (← l.mapM String.toNat?))
+  | ["MR", i] => do some (.memberRet (← i.toNat?))
+  | ["GR"] => some .groupRet
   | _ => none
 
 def parseHistory (s : String) : Option (List Ev) := (Wire.splitList s).mapM parseEv
@@ -745,10 +858,14 @@ def handle : List String → String
   | ["accept", hs] =>
     match parseHistory hs with
     | none => "bad-op"
-    | some h =>
+    | some h0 =>
+      -- (a hosted proxy: the proxy's own history first, then the host layer along the whole history)
+      let h := baseOf h0
       let v := search h.toArray
       if v.ok then
-        if checkRun h v.actions.toList then s!"accept plans={v.plansTried} actions={v.actions.size}"
+        if checkRun h v.actions.toList then
+          if (groupOf h0).isNone || checkGRun h0 v.actions.toList then s!"accept plans={v.plansTried} actions={v.actions.size}"
+          else s!"reject host-layer-does-not-replay plans={v.plansTried}"
         else s!"reject merged-run-does-not-replay plans={v.plansTried}"
       else if v.capped then s!"inconclusive plans={v.plansTried}"
       else s!"reject no-execution-of-the-model-has-this-history plans={v.plansTried}"
@@ -756,7 +873,7 @@ def handle : List String → String
     match parseHistory hs with
     | none => "bad-op"
     | some h =>
-      match clauses h.toArray with
+      match clauses (baseOf h).toArray with
       | [] => "true"
       | fs => "false " ++ ",".intercalate (fs.map fun f => s!"{f.clause}:{f.conn}")
   | _ => "bad-op"
